@@ -99,6 +99,7 @@ def check(ids, extra_props=None):
         finally:
             sh("git -C /repo checkout -- . && git -C /repo clean -fdq")
         json.dump(res, open(rf, "w"), indent=1)
+        sh("%s/run/verifh gen" % ROOT)   # bring coq/Gen back in line with the restored tree
         print(pid, k, "CAUGHT" if res.get("caught") else "MISSED", "(with input)" if res.get("caught_with_input") else "", res.get("check_s"))
 
 if __name__ == "__main__":
